@@ -355,7 +355,10 @@ class ZoneAnalysis:
                 cal = x.get('callee') or ''
                 if 'from_residual' in cal:
                     continue
-                cands.setdefault((), []).append(self.call_retlen(zf, x, ()))
+                rl = self.call_retlen(zf, x, ())
+                if rl is None and cal == 'std::iter::Iterator::collect' and x['args']:
+                    rl = zf.iter_len(x['args'][0])
+                cands.setdefault((), []).append(rl)
         for path, ts in cands.items():
             ts2 = [t for t in ts]
             if ts2 and all(t is not None and t == ts2[0] for t in ts2) and self._param_term_ok(zf, ts2[0]):
@@ -533,7 +536,17 @@ class ZoneAnalysis:
                     add(Site(body.path, bi, 'overflow', '%s>>%s' % (opname(ops[0]), opname(ops[1])),
                              [(b, (None, 63))] if b is not None else None, t['line'], t.get('span')))
                 elif msg in ('DivisionByZero', 'RemainderByZero'):
-                    d = zf.term_op(ops[0]) if ops else None
+                    # the operand recorded with the assertion is the dividend; the divisor is what the asserted condition compares with 0
+                    d = None
+                    c = t.get('cond')
+                    if c and c.get('k') in ('copy', 'move') and not c['pl'].get('p'):
+                        dc = zf.single_def(c['pl']['l'])
+                        if dc and dc[0] == 'assign' and dc[2]['rv']['k'] == 'binop' and dc[2]['rv']['op'] == 'Eq':
+                            a_, b_ = dc[2]['rv']['a'], dc[2]['rv']['b']
+                            if b_['k'] == 'const' and b_.get('int') == '0':
+                                d = zf.term_op(a_)
+                            elif a_['k'] == 'const' and a_.get('int') == '0':
+                                d = zf.term_op(b_)
                     add(Site(body.path, bi, 'div', '%s/%s' % (msg, opname(ops[0]) if ops else '?'),
                              [((None, 1), d)] if d is not None else None, t['line'], t.get('span')))
                 else:
@@ -608,6 +621,64 @@ class ZoneAnalysis:
         # discharge
         for s in zf.sites:
             self._discharge(zf, s)
+        self._lift_closure_sites(zf)
+
+    def _closure_term(self, zf, caps, es, t, left):
+        """a term of a closure body (element parameter, captures, captured containers) in the terms of the body that creates the closure"""
+        if t is None:
+            return None
+        sy, c = t
+        if sy is None:
+            return t
+        if sy == 'p2':
+            return (es, c) if (left and es is not None) else None      # `every element` may only strengthen the left-hand side
+        if sy.startswith('cap') and sy[3:].isdigit() and int(sy[3:]) < len(caps):
+            return tadd(zf.term_op(caps[int(sy[3:])]), c)
+        m = re.match(r'^len:_1\.(\d+)$', sy)
+        if m and int(m.group(1)) < len(caps) and caps[int(m.group(1))]['k'] in ('copy', 'move'):
+            return tadd(zf.len_of_place(caps[int(m.group(1))]['pl']), c)
+        if sy.startswith('N:'):
+            return t
+        return None
+
+    def _lift_closure_sites(self, zf):
+        """an unproven site inside a closure that this body creates and hands to an iterator adaptor (or calls): the requirement, with the
+        closure's element parameter read as `every element of the iterated container` and its captures as the captured values, becomes a
+        site of this body at the consuming call (proved here, or carried on as a precondition of this function)."""
+        for l, rv in list(zf.fd.closure_aggs.items()):
+            cpath = rv['name']
+            if cpath not in self.prog.bodies or cpath == zf.body.path:
+                continue
+            czf = self.zf(cpath)
+            self.analyse_sites(czf)
+            cctx = czf.closure_ctx()
+            if cctx is None or cctx[0] is not zf or cctx[3] is None:
+                continue
+            pzf, cb, caps, (bi, t) = cctx
+            es = zf.elem_sym_of_iter(t['args'][0]) if (t.get('callee') or '').startswith('std::iter::Iterator::') and t['args'] else None
+            import audit as _audit
+            for cs in czf.sites:
+                if cs.status != 'unknown' or not cs.need:
+                    continue
+                if cs.key() in _audit.AUDIT:
+                    continue      # decided by an audited argument about when the closure runs at all (not expressible as a conjunction of bounds)
+                need = []
+                for (a, b) in cs.need:
+                    a2, b2 = self._closure_term(zf, caps, es, a, True), self._closure_term(zf, caps, es, b, False)
+                    if a2 is None or b2 is None:
+                        need = None
+                        break
+                    need.append((a2, b2))
+                if not need:
+                    continue
+                s = Site(zf.body.path, bi, 'callee', '%s<-%s' % (cpath.split('::')[-1], cs.key()), need, t['line'], t.get('span'))
+                s.origin = cs
+                if any(x.kind == s.kind and x.desc == s.desc for x in zf.sites):
+                    continue
+                zf.sites.append(s)
+                self._discharge(zf, s)
+                cs.status = 'pre'
+                cs.pre = list(cs.need)
 
     def _indexed_name(self, zf, t, placename):
         body = zf.body
